@@ -104,6 +104,29 @@ def run(c, chk):
         chk.fail('R17.3', 'absolute-name', c.where(fn), 'an absolute file name does not bypass the directory list (no direct strdup(file) -> test path)')
     chk.floor('R17.1 non-NULL return paths', nret, 3)
 
+    # ---- R17.12: a miss in the older directories is never the end of the search --------------------------------
+    chk.rule('R17.12', 'when the rest of the directory list has no such file, the directory at hand is still tried (no reason for the miss - not a directory, not a regular file - ends the search)')
+    nmiss = 0
+    badm = None
+    for p in paths:
+        rec = [e for e in p.events if e.kind == 'call' and e.name in fam and e.args and sym.render(e.args[0]) == 'p->next']
+        for e in rec:
+            missed = any((lambda na: na is not None and na[0] == e.res and na[1])(fp.is_null_assumption(cn, t)) for cn, t, _ in p.assume)
+            if not missed:
+                continue
+            nmiss += 1
+            later = [x for x in p.events[p.events.index(e) + 1:] if x.kind == 'call' and x.name == 'cfg_make_fullpath']
+            if not later:
+                badm = badm or (p, e)
+    if badm is not None:
+        p, e = badm
+        chk.fail('R17.12', 'search-gives-up', c.where(p.last_ins) if p.last_ins is not None else c.where(fn),
+                 'after the older directories had no such file the search can return without trying the directory at hand (%s): a directory entry that is a plain file, '
+                 'or a name that exists there as a directory, hides the regular file in a directory added later' % fp.cond_text(p, 4))
+    elif nmiss:
+        chk.ok('R17.12', '%d paths on which the rest of the list missed' % nmiss, 'each goes on to cfg_make_fullpath(p->dir, file)', sample=True)
+    chk.floor('R17.12 paths with a miss in the rest of the list', nmiss, 1)
+
     # ---- R17.2 ---------------------------------------------------------------------------------
     add = c.need('cfg_add_searchpath')
     prepend = append = False
